@@ -46,6 +46,7 @@ pub fn run(o: &Opts) -> Res<()> {
             run_scenario(&out, seed, move |net| e2e(net, seed, nn, long, full))?
         }
         "stale" => run_scenario(&out, seed, move |net| stale(net, seed))?,
+        "manysearch" => { let k = o.num("n", 2100); run_scenario(&out, seed, move |net| many_searches(net, seed, k))? }
         "flood" => {
             let corpus = o.req("corpus")?.to_owned();
             run_scenario(&out, seed, move |net| flood(net, seed, corpus))?
@@ -371,6 +372,24 @@ async fn stale(net: Net, seed: u64) {
         net.inject(asker, me, benc::q_get_peers(b"d2", &rand_id(&mut rng), &ih_a, w), 0);
     }
     sleep_ms(2000).await;
+    api_state(&net, &dht, me).await;
+    net.log(json!({"ev":"End"}));
+}
+
+
+/// C19: one node, no contacts (bootstrapped at once, every search ends immediately): more searches than one block of action ids
+/// (2048), so that the allocator's first block is used up and the second begins while the refresh's prefix is still live.
+async fn many_searches(net: Net, seed: u64, k: u64) {
+    let mut rng = StdRng::seed_from_u64(seed);
+    let me: SocketAddr = v4(10, 0, 0, 1, 7000);
+    let dht = start_node(&net, &NodeCfg { addr: me, id: Some(rand_id(&mut rng)), read_only: seed % 2 == 0, announce_port: None, nodes: vec![], routers: vec![] });
+    let _ = tokio::time::timeout(std::time::Duration::from_secs(60), wait_bootstrapped(&net, &dht, me, 1)).await;
+    for i in 0..k {
+        let s = search(&net, &dht, me, i + 1, rand_id(&mut rng), i % 2 == 0);
+        let _ = tokio::time::timeout(std::time::Duration::from_secs(60), s).await;
+        if i % 256 == 255 { sleep_ms(7000).await; }
+    }
+    sleep_ms(7000).await;
     api_state(&net, &dht, me).await;
     net.log(json!({"ev":"End"}));
 }
